@@ -57,7 +57,9 @@ JUNK_LINES = ["Local variables:", ";; Local variables:", ";;  local VARIABLES: x
               "Mon Jan  1 00:00:00 2001 Joe <j@x>", "Mon Jan 1 0:0:0 UTC 2001 Joe (j@x)", "Mon Jan 1, 2001 Joe (j@x)",
               "Mon Jan 12 2001  Joe  <j@x>", "pkg (1.0)", "pkg (1.0);", "pkg (1.0) unstable", "pkg 1.0 Debian 1",
               "pkg-1.0 Debian 1", "Changes from version 1.0 to 1.1:", "Changes for pkg-1.0:", "Changes for pkg-1.0",
-              "Old Changelog:", "old changelog:  ", "foo:", "1:foo", "word", "w.o+r~d-1:  "]
+              "Old Changelog:", "old changelog:  ", "foo:", "1:foo", "word", "w.o+r~d-1:  ",
+              # text that means something to %-formatting, str.format and regex replacement templates
+              "100% junk", "use %s here", "%d %(x)s %%", "{0} {} {x}", "back\\1 \\g<0>", "100%"]
 OTHER_LINES = ["garbage here", "x y", " one space indented", "\tTab indented", " --", " -- ", " --  \t", "--", " --x",
                " -- Joe <j@x>", " -- Joe <j@x> Mon, 01 Jan 2001 00:00:00 +0000", " -- Joe <j@x>   Mon, 01 Jan 2001 00:00:00 +0000",
                " -- Joe <j@x>  Mon, 01 Jan 2001 00:00:00", " -- <>  1 J 2001 1:00:00 +0000", " -- Joe <j@x>  Mon, 01 Jan 2001 00:00:00 +0000  ",
